@@ -273,13 +273,44 @@ def r4_canonical_elements(ctx, F):
     agg = new.aggregates(r"StackOutputs$")
     if agg and checks and not all(new.dominates(bi, agg[0][0]) for bi, c, t in checks):
         ctx.violation("check-after-construction|StackOutputs::new", new.loc(), "validity checks do not dominate construction")
+    # find_invalid_elements(&[x0, x1, x2]) interpreted on symbolic integers: every path's branch conditions are evaluated on all
+    # assignments of boundary values; the result must be the first element >= the modulus, None when there is none
+    from . import execmodel
+    import itertools
     fie = F.fn(r"^miden_core::stack::outputs::find_invalid_elements$")
     MOD = 18446744069414584321
-    cmps = [c for c in cmp_branches(fie) if c["kind"] == "bin"]
-    ok = any(c["op"] in (">=", ">") and str(fie.const_of(c["b"])) in (str(MOD), str(MOD - 1)) for c in cmps)
-    ctx.oblig(ok)
-    if not ok:
-        ctx.violation("modulus-comparison|find_invalid_elements", fie.loc(), "find_invalid_elements does not compare with Felt::MODULUS: %s" % [(c["op"], fie.const_of(c["b"])) for c in cmps])
+    ctx.inst(key="find_invalid_elements", nontrivial=True)
+    names = ["x0", "x1", "x2"]
+    probes = (0, MOD - 1, MOD, 2 ** 64 - 1)
+    results = []
+    try:
+        for I, res, exc in enumerate_paths(lambda: Interp(F), lambda I: I.call(fie.id, [SlicePtr([Term(n) for n in names], 0, len(names))]), max_paths=256):
+            if exc is not None:
+                raise exc
+            results.append((list(I.path), res))
+        bad = None
+        for vals in itertools.product(probes, repeat=len(names)):
+            env = dict(zip(names, vals))
+            want = next((v for v in vals if v >= MOD), None)
+            hits = [res for g, res in results if execmodel.consistent(g, env)]
+            got = set()
+            for res in hits:
+                if isinstance(res, Agg) and res.variant == "Some":
+                    got.add(execmodel.ev(res.items[0], env))
+                elif isinstance(res, Agg) and res.variant == "None":
+                    got.add(None)
+                else:
+                    got.add("?")
+            if got != {want}:
+                bad = (vals, sorted(map(str, got)), want)
+                break
+        ok = bad is None and bool(results)
+        ctx.oblig(ok)
+        ctx.analysed("find_invalid_elements: %d paths x %d boundary assignments" % (len(results), len(probes) ** len(names)))
+        if not ok:
+            ctx.violation("modulus-comparison|find_invalid_elements", fie.loc(), "find_invalid_elements does not return the first element >= Felt::MODULUS: for %s it yields %s, expected %s" % bad if bad else "no path")
+    except (Unanalysable, PanicReached) as e:
+        ctx.violation("UNANALYSABLE|find_invalid_elements", fie.loc(), str(e)[:300])
     # StackInputs::try_from_values / AdviceInputs::with_stack_values: every element through Felt::try_from (never Felt::new / From<u64>)
     for pat in (r"^miden_core::stack::inputs::StackInputs::try_from_values$", r"^miden_processor::host::advice::inputs::AdviceInputs::with_stack_values$"):
         fn = F.fn(pat)
